@@ -350,8 +350,8 @@ def check_deep(case):
 
 
 SUBCHECKS = [
-    SubCheck("commitment_and_proofs", check_commit, "output key/parity, tweaked private key, merkle root and every leaf's control block vs BIP341 reference; non-trivial: >=3 leaves or unbalanced tree, or key-only with odd parity", lambda: commit_case(8), quick=500, thorough=6000),
-    SubCheck("tamper", check_tamper, "one bit of control block / script / output key flipped, control truncated/extended, path elements swapped/dropped/added: verdict equals the reference and an altered proof never verifies", tamper_case, quick=800, thorough=10000),
+    SubCheck("commitment_and_proofs", check_commit, "output key/parity, tweaked private key, merkle root and every leaf's control block vs BIP341 reference; non-trivial: >=3 leaves or unbalanced tree, or key-only with odd parity", lambda: commit_case(8), quick=700, thorough=12000),
+    SubCheck("tamper", check_tamper, "one bit of control block / script / output key flipped, control truncated/extended, path elements swapped/dropped/added: verdict equals the reference and an altered proof never verifies", tamper_case, quick=1100, thorough=20000),
     SubCheck("refusals", check_refusal, "internal x not on curve / >= p / wrong size refused; tweak >= n (forced through tagged_hash) refused, same on both backends", refusal_case, quick=300, thorough=3000),
     SubCheck("deep_trees", check_deep, "comb trees of depth 1..129: output key, control block of any leaf, and the 128-element path limit", deep_case, quick=64, thorough=600),
 ]
